@@ -262,6 +262,8 @@ pub struct Replay {
     pub signature: String,
     pub detail: String,
     pub origin: String,
+    /// event-log digest of the execution that produced the file (replay must reproduce it exactly)
+    pub digest: Option<u64>,
     pub scenario: Scenario,
 }
 
@@ -275,6 +277,9 @@ impl Replay {
             let _ = writeln!(s, "# detail: {}", l);
         }
         let _ = writeln!(s, "# origin: {}", self.origin);
+        if let Some(d) = self.digest {
+            let _ = writeln!(s, "digest {:016x}", d);
+        }
         s.push_str(&self.scenario.to_text());
         s.push_str("expect violation\n");
         s
@@ -285,6 +290,7 @@ impl Replay {
         let mut signature = String::new();
         let mut detail = String::new();
         let mut origin = String::new();
+        let mut digest = None;
         let mut world = String::new();
         let mut items = Vec::new();
         let mut seen_magic = false;
@@ -314,6 +320,8 @@ impl Replay {
                 property = p.trim().to_string();
             } else if let Some(p) = line.strip_prefix("signature ") {
                 signature = p.trim().to_string();
+            } else if let Some(p) = line.strip_prefix("digest ") {
+                digest = u64::from_str_radix(p.trim(), 16).ok();
             } else if let Some(p) = line.strip_prefix("world ") {
                 world = p.trim().to_string();
             } else if line.starts_with("expect ") {
@@ -325,6 +333,6 @@ impl Replay {
         if property.is_empty() || world.is_empty() {
             return Err("replay file lacks property or world".into());
         }
-        Ok(Replay { property, signature, detail, origin, scenario: Scenario { world, items } })
+        Ok(Replay { property, signature, detail, origin, digest, scenario: Scenario { world, items } })
     }
 }
